@@ -10,10 +10,10 @@ using namespace sim; using namespace codec;
 struct ConnSpec {
     int id; Addr addr[2]; uint16_t port[2];   // [0]=client, [1]=server
     uint32_t isn[2]; Bytes data[2]; int mss[2]; int wnd[2];
-    bool sack, handshake, tsopt; int sack_asym;   // sack_asym: 0 both sides offer SACK-permitted, 1 only the client does (so only the server may send blocks), 2 only the server does
+    bool sack, handshake, tsopt, ecn; int sack_asym;   // sack_asym: 0 both sides offer SACK-permitted, 1 only the client does (so only the server may send blocks), 2 only the server does
     int close;          // 0 none (stays open), 1 FIN both, 2 RST by client, 3 RST by server, 4 FIN by client then RST by server, 5 FIN by client only (half close then silence)
     bool fin_with_data; int64_t start_us; int64_t rst_after_us;
-    ConnSpec() : id(0), sack(true), handshake(true), tsopt(false), sack_asym(0), close(1), fin_with_data(false), start_us(0), rst_after_us(0) { port[0] = port[1] = 0; isn[0] = isn[1] = 0; mss[0] = mss[1] = 100; wnd[0] = wnd[1] = 400; }
+    ConnSpec() : id(0), sack(true), handshake(true), tsopt(false), ecn(false), sack_asym(0), close(1), fin_with_data(false), start_us(0), rst_after_us(0) { port[0] = port[1] = 0; isn[0] = isn[1] = 0; mss[0] = mss[1] = 100; wnd[0] = wnd[1] = 400; }
     std::string line() const {
         KV k; k.set("conn", id).set("ca", addr[0].hexs()).set("cp", port[0]).set("sa", addr[1].hexs()).set("sp", port[1])
          .setu("cisn", isn[0]).setu("sisn", isn[1]).set("c2s", data[0]).set("s2c", data[1]).set("hs", handshake ? 1 : 0).set("close", close);
@@ -137,8 +137,8 @@ struct ConnSim {
         if (x.una >= L && x.fin_sent && !x.fin_acked) send_data(side, L, 0, true, "rtx-fin");
         x.rto = std::min<int64_t>(x.rto * 2, 400000); arm(side);
     }
-    void send_syn(int side) { TcpSeg s; s.seq = c.isn[side]; s.ack = 0; s.flags = TH_SYN; s.opt_mss((uint16_t)c.mss[side]); if (c.sack && c.sack_asym != 2) s.opt_sack_permitted(); emit(side, s, "syn"); h[side].rto = std::min<int64_t>(h[side].rto * 2, 400000); arm(side); }
-    void send_synack(int side) { TcpSeg s; s.seq = c.isn[side]; s.ack = c.isn[1 - side] + 1; s.flags = TH_SYN | TH_ACK; s.opt_mss((uint16_t)c.mss[side]); if (c.sack && c.sack_asym != 1) s.opt_sack_permitted(); emit(side, s, "synack"); h[side].rto = std::min<int64_t>(h[side].rto * 2, 400000); arm(side); }
+    void send_syn(int side) { TcpSeg s; s.seq = c.isn[side]; s.ack = 0; s.flags = (uint8_t)(TH_SYN | (c.ecn ? 0xc0 : 0));   /* ECN-setup SYN: SYN|ECE|CWR (RFC 3168) */ s.opt_mss((uint16_t)c.mss[side]); if (c.sack && c.sack_asym != 2) s.opt_sack_permitted(); emit(side, s, "syn"); h[side].rto = std::min<int64_t>(h[side].rto * 2, 400000); arm(side); }
+    void send_synack(int side) { TcpSeg s; s.seq = c.isn[side]; s.ack = c.isn[1 - side] + 1; s.flags = (uint8_t)(TH_SYN | TH_ACK | (c.ecn ? 0x40 : 0));   /* ECN-setup SYN-ACK: SYN|ACK|ECE */ s.opt_mss((uint16_t)c.mss[side]); if (c.sack && c.sack_asym != 1) s.opt_sack_permitted(); emit(side, s, "synack"); h[side].rto = std::min<int64_t>(h[side].rto * 2, 400000); arm(side); }
     void send_ack(int side, const std::string& note) {
         Half& x = h[side]; TcpSeg s; s.seq = x.snd_base + (uint32_t)x.nxt + (x.fin_sent ? 1 : 0); s.ack = cur_ack(side); s.flags = TH_ACK;
         if (c.sack && !(c.sack_asym == 1 && side == 0) && !(c.sack_asym == 2 && side == 1)) {      // a side sends blocks only if its peer offered SACK-permitted
